@@ -52,6 +52,20 @@ MenuWholeBig == [s \in Slots |->
      [] s = "compCS" -> ShapesSmall("none", "zlib", "z9")
      [] s = "compSC" -> ShapesSmall("none", "zlib", "z9")]
 
+\* ---- config 3: end-to-end menu. Only what a real Config can express: one cipher list and one MAC list for both
+\* directions (the generator keeps CS = SC), no empty lists (empty means "defaults"), compression always "none".
+E2EShapes(x, y, w) == { << <<x>>, <<x>> >>, << <<x, y>>, <<y, x>> >>, << <<w, y>>, <<x, y>> >>, << <<y, w>>, <<x, y>> >>, << <<x>>, <<y>> >> }
+E2ECipher == { << <<"c1", "g">>, <<"g", "c1">> >>, << <<"g", "c1">>, <<"c1", "g">> >>, << <<"g2", "c2">>, <<"g2">> >>,
+               << <<"c1">>, <<"c2", "c1">> >>, << <<"c1">>, <<"c2">> >> }
+MenuE2E == [s \in Slots |->
+   CASE s = "kex" -> E2EShapes("k1", "k2", "k9")
+     [] s = "hostkey" -> E2EShapes("h1", "h2", "h9")
+     [] s \in {"cipherCS", "cipherSC"} -> E2ECipher
+     [] s \in {"macCS", "macSC"} -> E2EShapes("m1", "m2", "m9")
+     [] OTHER -> {<< <<"none">>, <<"none">> >>}]
+SameDirs == ci["cipherCS"] = ci["cipherSC"] /\ si["cipherCS"] = si["cipherSC"] /\ ci["macCS"] = ci["macSC"] /\ si["macCS"] = si["macSC"]
+EmitE2E == (Done /\ SameDirs) => PrintT("TRACE " \o ToJson([ci |-> ci, si |-> si, c |-> resC, s |-> resS]))
+
 \* ---- generator: print every completed negotiation as one JSON line (binding R)
 Emit == Done => PrintT("TRACE " \o ToJson([ci |-> ci, si |-> si, c |-> resC, s |-> resS]))
 =============================================================================
